@@ -194,7 +194,31 @@ Definition judge_write (sc : schema) (maxsize : N) (closed : option N) (shs : li
   let base := if up then ref else union (filter (is_up closed) shs) in
   let rest := if up then [] else union (filter (fun sh => negb (is_up closed sh)) shs) in
   match apply_spec sc maxsize b base with
-  | (_, SErr _) => (290, ref)
+  | (_, SErr _) =>
+      (* the batch is refused by the shard whose point it does not fit (an ill-typed indexed field): that shard's
+         transaction fails as a whole and its RPC returns an error -- it has not answered. Every other available
+         shard applies its part; an id no answering shard processed is reported, with the message of an incomplete
+         answer (never "not found": not every shard answered) *)
+      match b with
+      | BUpdate ps =>
+          let per := map (fun sh =>
+                       if is_up closed sh then
+                         match update_spec sc maxsize ps (os_points sh) with
+                         | (s', SOk ids) => (s', Some ids)
+                         | (_, SErr _) => (os_points sh, None)
+                         end
+                       else (os_points sh, None)) shs in
+          let expected := concat (map fst per) in
+          let found := concat (map (fun p => match snd p with Some ids => ids | None => [] end) per) in
+          let complete := forallb (fun p => match snd p with Some _ => true | None => false end) per in
+          if complete then (290, ref) else
+          if err then (108, ref) else
+          if negb (store_eqb (union after) expected && counts_ok after) then (101, ref) else
+          if negb (ids_eqb (map fst resp) (filter (fun id => negb (mem_bytes id found)) requested)) then (102, ref) else
+          if negb (forallb (fun p => snd p =? 1) resp) then (103, ref) else
+          (0, expected)
+      | _ => (290, ref)
+      end
   | (base', SOk _) =>
       let expected := base' ++ rest in
       if err then (108, ref) else
